@@ -18,6 +18,25 @@ use tokio::sync::{broadcast, mpsc};
 use tokio::time;
 use tokio::time::{Duration, Instant, Interval};
 
+// Simulation runs many sessions in one process: terminal output is dropped there (the view
+// itself, its timer and its channels still run).
+#[cfg(rdest_verif)]
+macro_rules! print {
+    ($($arg:tt)*) => {{
+        if false {
+            let _ = format!($($arg)*);
+        }
+    }};
+}
+#[cfg(rdest_verif)]
+macro_rules! println {
+    ($($arg:tt)*) => {{
+        if false {
+            let _ = format!($($arg)*);
+        }
+    }};
+}
+
 const CHANNEL_SIZE: usize = 32;
 const DELAY_MS: u64 = 100;
 const SNAKE_TAIL_SIZE: usize = 4;
